@@ -116,40 +116,41 @@ func (c *CorsSpec) build() *types.Cors {
 // ClientSpec is a protocol-conformant client with knobs and a fault plan, or
 // (Raw != nil) a scripted raw client.
 type ClientSpec struct {
-	Name        string      `json:"name"`
-	StartMs     int         `json:"start"`
-	Transport   string      `json:"transport"` // polling | websocket | webtransport
-	EIO         int         `json:"eio"`
-	B64         bool        `json:"b64,omitempty"`
-	JSONP       bool        `json:"jsonp,omitempty"`
-	J           string      `json:"j,omitempty"`
-	Upgrade     string      `json:"upgrade,omitempty"` // "", websocket, webtransport
-	UpgradeAtMs int         `json:"upgradeAt,omitempty"`
-	Sends       []ClientMsg `json:"sends,omitempty"`
-	PongDelayMs []int       `json:"pong,omitempty"` // per ping (cyclic); <0: never answer
-	V3PingMs    int         `json:"v3ping,omitempty"`
-	StopAtMs    int         `json:"stopAt,omitempty"`     // >0: complete silence from then on (partition)
-	CloseAtMs   int         `json:"closeAt,omitempty"`    // >0: orderly client close (close packet / close frame)
-	CloseTrail  int         `json:"closeTrail,omitempty"` // polling: that many message packets follow the close packet in the same payload
-	Faults      []FaultSpec `json:"faults,omitempty"`
-	AcceptEnc   string      `json:"ae,omitempty"`
-	Origin      string      `json:"origin,omitempty"`
-	LatencyMs   int         `json:"lat,omitempty"`  // request/frame latency
-	Frag        []int       `json:"frag,omitempty"` // stream read fragmentation pattern
-	UA          string      `json:"ua,omitempty"`
-	Path        string      `json:"path,omitempty"`
-	PollGapMs   int         `json:"pollGap,omitempty"` // think time between polls
-	Raw         []RawOp     `json:"raw,omitempty"`
-	Canary      bool        `json:"canary,omitempty"`
-	Cand        []CandOp    `json:"cand,omitempty"` // non-conformant upgrade candidate script (C08)
-	CandAtMs    int         `json:"candAt,omitempty"`
-	CandKind    string      `json:"candKind,omitempty"`
-	NoCL        bool        `json:"nocl,omitempty"`           // data requests without Content-Length (chunked transfer)
-	AbortHS     bool        `json:"abortHandshake,omitempty"` // the client gives up while its handshake request is being served
-	RecvWindow  int         `json:"recvWindow,omitempty"`     // WebSocket: once the client has gone silent it also stops reading; the server's writes stall when that many bytes are unread
-	EarlyWS     bool        `json:"earlyWS,omitempty"`        // WebSocket: the client goes ahead as soon as the 101 is on the wire, while the server's handler is still at work
-	Retry       bool        `json:"retry,omitempty"`          // after a failed candidate, try a conformant upgrade later
-	RetryAtMs   int         `json:"retryAt,omitempty"`
+	Name          string      `json:"name"`
+	StartMs       int         `json:"start"`
+	Transport     string      `json:"transport"` // polling | websocket | webtransport
+	EIO           int         `json:"eio"`
+	B64           bool        `json:"b64,omitempty"`
+	JSONP         bool        `json:"jsonp,omitempty"`
+	J             string      `json:"j,omitempty"`
+	Upgrade       string      `json:"upgrade,omitempty"` // "", websocket, webtransport
+	UpgradeAtMs   int         `json:"upgradeAt,omitempty"`
+	Sends         []ClientMsg `json:"sends,omitempty"`
+	PongDelayMs   []int       `json:"pong,omitempty"` // per ping (cyclic); <0: never answer
+	V3PingMs      int         `json:"v3ping,omitempty"`
+	StopAtMs      int         `json:"stopAt,omitempty"`     // >0: complete silence from then on (partition)
+	CloseAtMs     int         `json:"closeAt,omitempty"`    // >0: orderly client close (close packet / close frame)
+	CloseTrail    int         `json:"closeTrail,omitempty"` // polling: that many message packets follow the close packet in the same payload
+	Faults        []FaultSpec `json:"faults,omitempty"`
+	AcceptEnc     string      `json:"ae,omitempty"`
+	AcceptEncPost string      `json:"aePost,omitempty"` // Accept-Encoding of the data requests, when it differs from the polls'
+	Origin        string      `json:"origin,omitempty"`
+	LatencyMs     int         `json:"lat,omitempty"`  // request/frame latency
+	Frag          []int       `json:"frag,omitempty"` // stream read fragmentation pattern
+	UA            string      `json:"ua,omitempty"`
+	Path          string      `json:"path,omitempty"`
+	PollGapMs     int         `json:"pollGap,omitempty"` // think time between polls
+	Raw           []RawOp     `json:"raw,omitempty"`
+	Canary        bool        `json:"canary,omitempty"`
+	Cand          []CandOp    `json:"cand,omitempty"` // non-conformant upgrade candidate script (C08)
+	CandAtMs      int         `json:"candAt,omitempty"`
+	CandKind      string      `json:"candKind,omitempty"`
+	NoCL          bool        `json:"nocl,omitempty"`           // data requests without Content-Length (chunked transfer)
+	AbortHS       bool        `json:"abortHandshake,omitempty"` // the client gives up while its handshake request is being served
+	RecvWindow    int         `json:"recvWindow,omitempty"`     // WebSocket: once the client has gone silent it also stops reading; the server's writes stall when that many bytes are unread
+	EarlyWS       bool        `json:"earlyWS,omitempty"`        // WebSocket: the client goes ahead as soon as the 101 is on the wire, while the server's handler is still at work
+	Retry         bool        `json:"retry,omitempty"`          // after a failed candidate, try a conformant upgrade later
+	RetryAtMs     int         `json:"retryAt,omitempty"`
 }
 
 type ClientMsg struct {
